@@ -46,6 +46,13 @@ theorem setters_source :
     unitVarSetters.lookup "Reaction.kr" = some ("self.units_system", "self.kr_units_dimensions()", "True", "True", "False") := by
   decide +kernel
 
+/-- a species, a reaction and a network own their units system: both the constructor and the setter store a COPY of the
+object they are given, so an in-place edit of the caller's `UnitsSystem` (or of the shared default argument) after
+construction cannot change the units in which an existing object's bare constants were read -/
+theorem units_system_is_owned :
+    unitsSystemCopied = [("Species", true, true), ("Reaction", true, true), ("RDNetwork", true, true)] := by
+  decide +kernel
+
 /-! ## Stoichiometric vectors -/
 
 /-- net change = products − reactants, entry by entry, for every list of species labels -/
